@@ -204,8 +204,28 @@ def formula_rule(ctx, rep, fn, want, sink, why):
 
 # ----------------------------------------------------------------------------- interleave
 
-def interleave_rules(ctx, rep):
+def _stripper(ctx):
+    """the function that trims the secret for the interleave: `SKey::as_equal_slice`, or - where
+    the crate keeps it elsewhere under another path - the one crate function with a body that
+    `calculate_interleaved` hands its parameter to and that returns a byte slice"""
     fn = "key::SKey::as_equal_slice"
+    if fn in ctx.fb.bodies:
+        return fn
+    se2 = ctx.wrap.run("srp_internal::calculate_interleaved")
+    if se2 is None:
+        return fn
+    found = set()
+    for bb, i in se2.term_info.items():
+        if i.get("k") == "call" and i["name"] in ctx.fb.bodies and len(i["args"]) == 1 and canon(ctx, se2, i["args"][0]) == ("param", 1):
+            b = ctx.fb.bodies[i["name"]]
+            out = ctx.fb.ty(b.d["output"]) if "output" in b.d else None
+            if out is not None and out.s in ("&[u8]", "&'a [u8]") and b.kind in ("Fn", "AssocFn"):
+                found.add(i["name"])
+    return found.pop() if len(found) == 1 else fn
+
+
+def interleave_rules(ctx, rep):
+    fn = _stripper(ctx)
     se = ctx.wrap.run(fn)
     if se is None:
         rep.violation("interleave", fn, "anchor", "not found")
